@@ -64,7 +64,7 @@ CLAIMED.update({
 })
 
 CLAIMED.update({
- 'C09': dict(text='Machine-checked over the reals: the regenerated Lewis table is strictly increasing; on such a table the interpolation equals the tabulated value at every knot, lies on the chord between adjacent knots and is clamped outside, for EVERY real argument (hence every teeth number, without bound); the model\'s tangential force is |reference torque|/(d/2) with d = teeth*module, load torque for the master and driving torque for the slave, for any units; the code\'s bending, contact (Hertz) and virtual-teeth expressions are proved algebraically equal to the documented ones. Carrying the bending/contact formulas step by step through the quantity layer is _partial (bit-exact correspondence + documented-formula oracle).',
+ 'C09': dict(text='Machine-checked over the reals: the regenerated Lewis table is strictly increasing; on such a table the interpolation equals the tabulated value at every knot, lies on the chord between adjacent knots and is clamped outside, for EVERY real argument (hence every teeth number, without bound); the model\'s tangential force is |reference torque|/(d/2) with d = teeth*module, load torque for the master and driving torque for the slave, for any units; the code\'s bending, contact (Hertz) and virtual-teeth expressions are proved algebraically equal to the documented ones. The bending stress of spur and helical gears and the contact stress of a spur gear are carried step by step through the regenerated quantity layer (inputs in any units; result a Stress of the documented SI magnitude). _partial: the worm wheel\'s bending stress and the helical gear\'s contact stress (bit-exact correspondence + documented-formula oracle).',
    note='Model = coq/Gears.v over the REGENERATED CSV tables (translator), tied to gearpy by bit-exact comparison of ~2500 formula evaluations per quick run (all teeth numbers 10..559, every optional-data subset, both roles, the four worm pressure angles, helix angles in [0,90), torques of either sign; libm sin/cos/tan/atan/pow as oracle tables whose ARGUMENTS are computed by the model). Flags and the mate-lacks-data ValueError: Keys.v (C17) and Gears.contact_stress, compared in the same runs.',
    technique='Coq proof over R (interpolation lemmas on the regenerated table, algebra through the regenerated quantity layer); bit-exact correspondence', ref='6 C09'),
 })
